@@ -12,6 +12,7 @@ import (
 	"strconv"
 	"strings"
 	"time"
+	"unsafe"
 
 	"github.com/metrico/qryn/reader/logql/logql_transpiler_v2/clickhouse_planner"
 	"github.com/metrico/qryn/reader/logql/logql_transpiler_v2/shared"
@@ -159,7 +160,25 @@ func tree(v reflect.Value) interface{} {
 	case "clickhouse_transpiler.union":
 		return J{"k": "union", "sels": list(f("selects"))}
 	}
-	return J{"k": "unknown", "type": v.Type().String()}
+	return unknownObj(v)
+}
+
+// unknownObj: a planner-local SQL object the model has no constructor for.  Its own String() is called (read-only; the value
+// sits in an unexported field, hence the unsafe re-typing of its address) so that the check can still read the fragment as a
+// generic function call and hand the statement to the evaluator instead of giving up on the whole query.
+func unknownObj(v reflect.Value) (res interface{}) {
+	r := J{"k": "unknown", "type": v.Type().String()}
+	res = r
+	defer func() { _ = recover() }()
+	if !v.CanAddr() {
+		return
+	}
+	if o, ok := reflect.NewAt(v.Type(), unsafe.Pointer(v.UnsafeAddr())).Interface().(sql.SQLObject); ok {
+		if txt, err := o.String(&sql.Ctx{Params: map[string]sql.SQLObject{}, Result: map[string]sql.SQLObject{}}); err == nil {
+			r["text"] = hx.Hex(txt)
+		}
+	}
+	return
 }
 
 // ---------------------------------------------------------------- one case
@@ -262,7 +281,7 @@ func run(c *Case) {
 // ---------------------------------------------------------------- generator (grammar driven)
 var keys = []string{"a", "b", "http.status", "x-y", "svc_1", "k"}
 var strs = []string{"v", "w", "", "it's", `a\b`, "%d", "x y", "GET", "200", `q"t`}
-var res = []string{"v.*", "^a", "[0-9]+", "a|b", ".+"}
+var res = []string{"v.*", "^a", "[0-9]+", "a|b", ".+", "my_service", "100%", "a_b", "GET"}
 var nums = []string{"0", "1", "5", "10", "200", "3.5", "0.25", "-1", "-2.5", "100000", "1.", "0.000001", "12345.678901", "0.0000001", "7.1234567"}
 var durs = []string{"1s", "5ms", "100us", "2m", "1h", "1.5s", "0.5ms", "10ns", "0s", "3d", "250ms", "1.25h"}
 var sops = []string{"=", "!=", "=~", "!~"}
